@@ -62,13 +62,14 @@ type ContractSet struct {
 }
 
 type Clause struct {
-	Kind  string // requires | ensures | invariant | panics_if | let | modifies
-	Label string
-	Loop  int
-	Props []string
-	Text  string
-	Expr  *Node
-	Line  int
+	Kind    string // requires | ensures | invariant | panics_if | let | modifies
+	Label   string
+	Loop    int
+	Props   []string
+	Text    string
+	Expr    *Node
+	Line    int
+	Default bool // clause of a default contract (a prohibition; may be vacuous)
 }
 
 func (c *Clause) appliesTo(prop string, fc *FuncContract) bool {
